@@ -7,11 +7,16 @@ INVARIANT PoptIsLastGivenElseCreationDefault
 INVARIANT XoptIsLastGivenElseDefault
 INVARIANT DropOverrideInherits
 INVARIANT ArrIsLastGivenElseDefault
+INVARIANT ReceivedLastElseDefault
 INVARIANT LevelIsLastGivenElseDefault
 INVARIANT RecordedCmdlineIsWhatTheUserGave
 PROPERTY FailedStepIsNoop
 PROPERTY EditTouchesNothingPersisted
 PROPERTY WipeIsFreshSetupWithWhatTheUserGave
+PROPERTY WipeKeepsReceivedValues
+PROPERTY OldNameGivesNewName
+PROPERTY DeletedFileRemovesItsOptions
+PROPERTY RestoredFileGivesDefaults
 PROPERTY ChoiceChangeKeepsValidValue
 PROPERTY SubChoiceChangeKeepsExplicitValue
 PROPERTY NewOptionGetsDefault
